@@ -185,6 +185,8 @@ all_contents (unsigned alphabet, unsigned maxlen, std::vector<std::vector<int> >
 
 // ------------------------------------------------------------------ non-member functions
 static long long key_of (int t) { return t; }
+static long long key_of (long long t) { return t; }
+static long long key_of (unsigned char t) { return t; }
 static long long key_of (const EqLt& t) { return t.v; }
 static long long key_of (const Ord& t) { return t.v; }
 static long long key_of (double t) { return t != t ? 3 : static_cast<long long> (t); }
@@ -253,6 +255,38 @@ check_nonmembers (const char *type, const std::vector<int>& a, int value, int k)
 }
 
 
+// erase (v, value) with a value of a *different* type: elements are compared with the value
+// as given (`*it == value`), it is never converted to the element type first
+template <typename T, unsigned N, typename U>
+static void
+check_hetero_erase (const char *type, const std::vector<int>& a, const U& value, int tag)
+{
+  gch::small_vector<T, N> e;
+  std::vector<T> m;
+  for (std::size_t i = 0; i < a.size (); ++i) { e.push_back (static_cast<T> (a[i])); m.push_back (static_cast<T> (a[i])); }
+  std::vector<T> keep;
+  for (std::size_t i = 0; i < m.size (); ++i) if (! (m[i] == value)) keep.push_back (m[i]);
+  ++g_evals;
+  const typename gch::small_vector<T, N>::size_type got = gch::erase (e, value);
+  if (got != m.size () - keep.size ()) fail ("erase (v, value of another type) returned the wrong count", type, N, N, a, std::vector<int> (1, tag));
+  if (! same_keys (e, keep)) fail ("erase (v, value of another type) left the wrong elements", type, N, N, a, std::vector<int> (1, tag));
+  if (keep.size () != m.size ()) ++g_nontrivial;
+}
+
+static void
+hetero_suite (const std::vector<int>& a)
+{
+  check_hetero_erase<int, 0> ("int/double", a, 2.5, 25);
+  check_hetero_erase<int, 3> ("int/double", a, 2.0, 20);
+  check_hetero_erase<int, 3> ("int/double", a, 1.5, 15);
+  check_hetero_erase<int, 2> ("int/long long", a, 4294967297LL, 4297);
+  check_hetero_erase<int, 2> ("int/long long", a, 1LL, 1);
+  check_hetero_erase<unsigned char, 4> ("uchar/int", a, 257, 257);
+  check_hetero_erase<unsigned char, 0> ("uchar/int", a, 2, 2);
+  check_hetero_erase<double, 2> ("double/int", a, 1, 1);
+  check_hetero_erase<long long, 3> ("long long/unsigned", a, 2u, 2);
+}
+
 int
 main (int argc, char **argv)
 {
@@ -300,6 +334,7 @@ main (int argc, char **argv)
       check_nonmembers<EqLt, 2> ("eqlt", cs[i], v, 2 + v);
       check_nonmembers<Ord, 5> ("ord", cs[i], v, 2 + v);
     }
+  for (std::size_t i = 0; i < cs.size () && ! g_fail.set; ++i) hetero_suite (cs[i]);
   // random beyond the exhaustive bound
   if (! g_fail.set && mode != "exh")
   {
@@ -323,6 +358,7 @@ main (int argc, char **argv)
       check_nonmembers<int, 3> ("int", a, v, 2 + v % 3);
       check_nonmembers<Ord, 0> ("ord", a, v, 2 + v % 3);
       check_nonmembers<double, 2> ("double", a, v, 2 + v % 3);
+      hetero_suite (a);
       if (g_fail.set) RC_FAIL (g_fail.msg);
     });
   }
